@@ -1796,4 +1796,520 @@ theorem cqmemWrite_spec {toTemp : World → Cq → World × Cq × Bool} (ht : To
       (q' := (tempfileErr (popW w).1 dest false).2.1) (r := (tempfileErr (popW w).1 dest false).2.2) rfl),
       by split <;> (dsimp only; omega)⟩
 
+theorem gatherSrc_length (cs : List Chunk) (slots len : Nat) :
+    (gatherSrc cs slots len).length ≤ len ∧ (gatherSrc cs slots len).length ≤ remSum cs := by
+  fun_induction gatherSrc cs slots len with
+  | case1 => simp
+  | case2 => simp
+  | case3 rest slots len d off cap clen piece h0 =>
+    simp only [piece, clen, List.length_take, List.length_drop, remSum_cons, Chunk.rem]
+    omega
+  | case4 rest slots len d off cap clen piece h0 ih =>
+    simp only [clen] at ih
+    simp only [List.length_append, piece, clen, List.length_take, List.length_drop, remSum_cons, Chunk.rem]
+    omega
+  | case5 => simp
+
+theorem cqmemPre_spec {toTemp : World → Cq → World × Cq × Bool} (ht : ToTempOK toTemp) (w : World) (dest : Cq) :
+    TStep w dest (cqmemPre toTemp w dest).1 (cqmemPre toTemp w dest).2.1 ∧
+      (QV w dest → (cqmemPre toTemp w dest).2.2.2.1.length ≠ 0 →
+        (cqmemPre toTemp w dest).1 = w ∧ (cqmemPre toTemp w dest).2.1 = dest ∧
+        (∀ c ∈ dest.chunks, c.isMem = true) ∧
+        (cqmemPre toTemp w dest).2.2.2.1.length = remSum dest.chunks) := by
+  unfold cqmemPre
+  dsimp only
+  split
+  · exact ⟨ht w dest, fun _ h => absurd rfl h⟩
+  · rename_i hcond
+    refine ⟨TStep.refl w dest, fun hq h0 => ?_⟩
+    have hle := leadingMem_length_le dest.chunks
+    have hk : (leadingMem dest.chunks).length = dest.chunks.length := by
+      by_cases hk1 : (leadingMem dest.chunks).length ≥ 1
+      · simp only [Bool.and_eq_true, Bool.or_eq_true, decide_eq_true_eq, not_and, not_or] at hcond
+        by_cases hlt : (leadingMem dest.chunks).length < dest.chunks.length
+        · exact absurd hk1 (hcond (Or.inr hlt))
+        · omega
+      · have : leadingMem dest.chunks = [] := List.eq_nil_of_length_eq_zero (by omega)
+        rw [this] at h0
+        simp at h0
+    obtain ⟨a, b⟩ := leadingMem_all hk
+    refine ⟨rfl, rfl, b, ?_⟩
+    rw [a]
+    exact absChunks_length hq.valid
+
+theorem cqmem_spec {toTemp : World → Cq → World × Cq × Bool} (ht : ToTempOK toTemp)
+    (w : World) (dest : Cq) (src : List Chunk) (len : Nat) (hf : Fresh w) (hq : QV w dest) :
+    Fresh (cqmemToTempfile toTemp w dest src len).w ∧ Grows w (cqmemToTempfile toTemp w dest src len).w ∧
+      QV (cqmemToTempfile toTemp w dest src len).w (cqmemToTempfile toTemp w dest src len).dest ∧
+      (cqmemToTempfile toTemp w dest src len).rc ≤ (min len (remSum src) : Nat) := by
+  obtain ⟨hp, hshape⟩ := cqmemPre_spec ht w dest
+  unfold cqmemToTempfile
+  split
+  · rename_i w1 dest1 dbytes iov0 heq
+    rw [heq] at hp
+    obtain ⟨a, b, c⟩ := hp hf hq
+    exact ⟨a, b, c, by dsimp only; omega⟩
+  · rename_i w1 dest1 dbytes iov0 heq
+    rw [heq] at hp hshape
+    obtain ⟨f1, g1, q1⟩ := hp hf hq
+    split
+    · exact ⟨f1, g1, q1, by dsimp only; omega⟩
+    · split
+      · rename_i w2 dest2 hga
+        obtain ⟨a, b, c⟩ := getAppendTempfile_spec hga f1 q1
+        exact ⟨a, g1.trans b, c, by dsimp only; omega⟩
+      · rename_i w2 dest2 hga
+        obtain ⟨f2, g2, q2⟩ := getAppendTempfile_spec hga f1 q1
+        have hsh : dbytes.length ≠ 0 → ∃ pre fid, dest2.chunks = pre ++ [.file fid 0 0 true .rw] ∧
+            dbytes.length = remSum pre := by
+          intro h0
+          obtain ⟨e1, e2, e3, e4⟩ := hshape hq h0
+          simp only at e1 e2 e4
+          subst e1 e2
+          rw [getAppendTempfile_of_mem e3] at hga
+          obtain ⟨fid, hc, _, _⟩ := newTempfile_chunks hga
+          exact ⟨dest1.chunks, fid, hc, e4⟩
+        obtain ⟨ts, rb⟩ := cqmemWrite_spec ht w2 dest2 dbytes (gatherSrc src (16 - iov0) len) hsh
+        obtain ⟨f3, g3, q3⟩ := ts f2 q2
+        have := gatherSrc_length src (16 - iov0) len
+        exact ⟨f3, (g1.trans g2).trans g3, q3, by omega⟩
+
+/-- what the nested chunkqueue_steal_with_tempfiles() has to deliver -/
+def SwOK (f : World → Cq → Cq → Nat → World × Cq × Cq × Bool) : Prop :=
+  ∀ w dest src len, Fresh w → QV w dest → QV w src →
+    Fresh (f w dest src len).1 ∧ Grows w (f w dest src len).1 ∧
+      QV (f w dest src len).1 (f w dest src len).2.1 ∧ QV (f w dest src len).1 (f w dest src len).2.2.1
+
+theorem swLoop_spec {toTemp : World → Cq → World × Cq × Bool} (ht : ToTempOK toTemp) (fuel : Nat) :
+    SwOK (swLoop toTemp fuel) := by
+  intro w dest src len
+  fun_induction swLoop toTemp fuel w dest src len with
+  | case1 w dest src len => exact fun hf hd hs => ⟨hf, Grows.refl w, hd, hs⟩
+  | case2 fuel w dest src len hnil => exact fun hf hd hs => ⟨hf, Grows.refl w, hd, hs⟩
+  | case3 fuel w dest src len c cs hc hm r hneg =>
+    intro hf hd hs
+    obtain ⟨a, b, c1, _⟩ := cqmem_spec ht w dest src.chunks len hf hd
+    exact ⟨a, b, c1, hs.mono b⟩
+  | case4 fuel w dest src len c cs hc hm r hneg m h0 =>
+    intro hf hd hs
+    obtain ⟨a, b, c1, d⟩ := cqmem_spec ht w dest src.chunks len hf hd
+    have hmw := markWritten_spec r.w src r.rc.toNat
+    have hle : r.rc.toNat ≤ remSum src.chunks := by
+      have : r.rc ≤ (min len (remSum src.chunks) : Nat) := d
+      omega
+    exact ⟨hmw.1.fresh a, b.trans hmw.1.grows, c1.mono hmw.1.grows, hmw.2 (hs.mono b) hle⟩
+  | case5 fuel w dest src len c cs hc hm r hneg m h0 ih =>
+    intro hf hd hs
+    obtain ⟨a, b, c1, d⟩ := cqmem_spec ht w dest src.chunks len hf hd
+    have hmw := markWritten_spec r.w src r.rc.toNat
+    have hle : r.rc.toNat ≤ remSum src.chunks := by
+      have : r.rc ≤ (min len (remSum src.chunks) : Nat) := d
+      omega
+    obtain ⟨i1, i2, i3, i4⟩ := ih (hmw.1.fresh a) (c1.mono hmw.1.grows) (hmw.2 (hs.mono b) hle)
+    exact ⟨i1, (b.trans hmw.1.grows).trans i2, i3, i4⟩
+  | case6 fuel w dest src len c cs hc hm clen h0 =>
+    intro hf hd hs
+    obtain ⟨s1, s2⟩ := steal_spec w dest src clen
+    obtain ⟨a, b, _, _⟩ := s2 hd hs
+    exact ⟨s1.fresh hf, s1.grows, a, b⟩
+  | case7 fuel w dest src len c cs hc hm clen r h0 ih =>
+    intro hf hd hs
+    obtain ⟨s1, s2⟩ := steal_spec w dest src clen
+    obtain ⟨a, b, _, _⟩ := s2 hd hs
+    obtain ⟨i1, i2, i3, i4⟩ := ih (s1.fresh hf) a b
+    exact ⟨i1, s1.grows.trans i2, i3, i4⟩
+
+theorem toTempfilesWith_spec {inner : World → Cq → Cq → Nat → World × Cq × Cq × Bool} (hi : SwOK inner) :
+    ToTempOK (toTempfilesWith inner) := by
+  intro w dest hf hq
+  unfold toTempfilesWith
+  dsimp only
+  have hlen := hq.len
+  have hq0 : QV w { dest with chunks := [], bytesIn := dest.bytesIn - dest.length.toNat } := by
+    refine ⟨ValidAll.nil w, ?_⟩
+    simp only [Cq.length, remSum_nil]
+    omega
+  obtain ⟨a, b, c, d⟩ := hi w { dest with chunks := [], bytesIn := dest.bytesIn - dest.length.toNat } dest
+    dest.length.toNat hf hq0 hq
+  have hr := releaseAll_same (inner w { dest with chunks := [], bytesIn := dest.bytesIn - dest.length.toNat } dest
+    dest.length.toNat).1 (inner w { dest with chunks := [], bytesIn := dest.bytesIn - dest.length.toNat } dest
+    dest.length.toNat).2.2.1.chunks
+  exact ⟨hr.fresh a, b.trans hr.grows, c.mono hr.grows⟩
+
+theorem toTempStub_ok : ToTempOK toTempStub := fun w q => TStep.refl w q
+
+theorem swInner_ok : SwOK swInner := fun w dest src len => swLoop_spec toTempStub_ok _ w dest src len
+
+theorem toTempfiles_ok : ToTempOK toTempfiles := toTempfilesWith_spec swInner_ok
+
+/-- chunkqueue_steal_with_tempfiles(): accounting of both queues survives every
+    fault schedule, success or error -/
+theorem stealWithTempfiles_spec : SwOK stealWithTempfiles :=
+  fun w dest src len => swLoop_spec toTempfiles_ok _ w dest src len
+
+theorem appendMemToTempfile_spec (w : World) (q : Cq) (d : Bytes) :
+    TStep w q (appendMemToTempfile w q d).1 (appendMemToTempfile w q d).2.1 := by
+  unfold appendMemToTempfile
+  have hpre : TStep w q (if firstIsMem q = true then toTempfiles w q else (w, q, true)).1
+      (if firstIsMem q = true then toTempfiles w q else (w, q, true)).2.1 := by
+    split
+    · exact toTempfiles_ok w q
+    · exact TStep.refl w q
+  split
+  · rename_i w1 q1 heq
+    rw [heq] at hpre
+    exact hpre
+  · rename_i w1 q1 heq
+    rw [heq] at hpre
+    exact hpre.trans (mtLoop_spec _ w1 q1 d)
+
+/-! ## the closed system -/
+
+/-- invariant of the two-queue system -/
+structure Inv (s : Sys) : Prop where
+  fresh : Fresh s.w
+  q0 : QV s.w s.q0
+  q1 : QV s.w s.q1
+
+/-- obligations of the caller that the model does not check itself: a file
+    range handed to chunkqueue_append_file*() lies inside an existing file -/
+def OpOK (s : Sys) : Op → Prop
+  | .appendFile _ fid off len _ => fid < s.w.nfiles ∧ off + len ≤ sz s.w fid
+  | _ => True
+
+theorem Inv.get {s : Sys} (h : Inv s) (i : Bool) : QV s.w (s.get i) := by
+  cases i
+  · exact h.q0
+  · exact h.q1
+
+theorem inv_single {s : Sys} (h : Inv s) (i : Bool) {w' : World} {q' : Cq}
+    (ht : TStep s.w (s.get i) w' q') : Inv ({ s with w := w' }.set i q') := by
+  obtain ⟨a, b, c⟩ := ht h.fresh (h.get i)
+  cases i
+  · exact ⟨a, c, h.q1.mono b⟩
+  · exact ⟨a, h.q0.mono b, c⟩
+
+theorem inv_pair {s : Sys} (i : Bool) {w' : World} {d' o' : Cq} (hf : Fresh w')
+    (hd : QV w' d') (ho : QV w' o') : Inv (({ s with w := w' }.set i d').set (!i) o') := by
+  cases i
+  · exact ⟨hf, hd, ho⟩
+  · exact ⟨hf, ho, hd⟩
+
+theorem inv_same {s : Sys} (h : Inv s) (i : Bool) {w' : World} {q' : Cq}
+    (hs : QStep s.w (s.get i) (w', q')) : Inv ({ s with w := w' }.set i q') :=
+  inv_single h i hs.tstep
+
+/-- every operation preserves the invariant, whatever the fault schedule -/
+theorem step_inv (s : Sys) (op : Op) (h : Inv s) (hop : OpOK s op) : Inv (step s op).1 := by
+  cases op with
+  | appendMem qi d =>
+    obtain ⟨a, b⟩ := appendMem_spec s.w (s.get qi) d
+    exact inv_same h qi (QStep.mk' a b)
+  | appendMemMin qi d =>
+    obtain ⟨a, b⟩ := appendMemMin_spec s.w (s.get qi) d
+    exact inv_same h qi (QStep.mk' a b)
+  | appendBuffer qi d =>
+    obtain ⟨a, b⟩ := appendBuffer_spec s.w (s.get qi) d
+    exact inv_same h qi (QStep.mk' a b)
+  | appendBufferOpen qi d =>
+    obtain ⟨a, b⟩ := appendBufferOpen_spec s.w (s.get qi) d
+    exact inv_same h qi (QStep.mk' a b)
+  | getUseMemory qi req d => exact inv_same h qi (getUseMemory_spec s.w (s.get qi) req d)
+  | appendFile qi fid off len fd =>
+    obtain ⟨a, b⟩ := appendFile_spec s.w (s.get qi) fid off len fd
+    exact inv_same h qi (QStep.mk' a fun hq => b hq hop.1 hop.2)
+  | appendChunkqueue qi =>
+    obtain ⟨a, b⟩ := appendChunkqueue_qv (h.get qi) (h.get (!qi))
+    exact inv_pair (s := s) qi h.fresh a b
+  | appendMemToTempfile qi d => exact inv_single h qi (appendMemToTempfile_spec s.w (s.get qi) d)
+  | steal qi n =>
+    obtain ⟨a, b⟩ := steal_spec s.w (s.get qi) (s.get (!qi)) n
+    obtain ⟨c, d, _, _⟩ := b (h.get qi) (h.get (!qi))
+    exact inv_pair qi (a.fresh h.fresh) c d
+  | stealWithTempfiles qi n =>
+    obtain ⟨a, _, c, d⟩ := stealWithTempfiles_spec s.w (s.get qi) (s.get (!qi)) n h.fresh (h.get qi) (h.get (!qi))
+    exact inv_pair qi a c d
+  | appendCqRange qi self off len =>
+    simp only [step]
+    split
+    · split
+      · exact h
+      · obtain ⟨a, b⟩ := rangeLoop_spec s.w (s.get qi) (s.get qi).chunks off len
+        exact inv_same h qi (QStep.mk' a fun hq => (b hq hq.valid).1)
+    · obtain ⟨a, b⟩ := rangeLoop_spec s.w (s.get qi) (s.get (!qi)).chunks off len
+      exact inv_same h qi (QStep.mk' a fun hq => (b hq (h.get (!qi)).valid).1)
+  | markWritten qi n =>
+    simp only [step]
+    split
+    · rename_i hle
+      obtain ⟨a, b⟩ := markWritten_spec s.w (s.get qi) n
+      refine inv_same h qi (QStep.mk' a fun hq => b hq ?_)
+      have := hq.len
+      simp only [Cq.length] at hle
+      omega
+    · exact h
+  | removeFinished qi => exact inv_same h qi (removeFinished_spec s.w (s.get qi))
+  | removeEmpty qi => exact inv_same h qi (removeEmpty_spec s.w (s.get qi))
+  | compactMem qi clen =>
+    simp only [step]
+    split
+    · exact inv_same h qi (compactMem_spec s.w (s.get qi) clen)
+    · exact h
+  | compactMemOffset qi =>
+    simp only [step]
+    split
+    · exact h
+    · have := inv_same (w' := s.w) h qi (QStep.mk' (SameFiles.refl s.w) fun hq => compactMemOffset_qv hq)
+      exact this
+  | peekData qi n =>
+    obtain ⟨a, b⟩ := peekData_spec s.w (s.get qi) n
+    exact inv_same h qi (QStep.mk' a fun hq => (b hq).1)
+  | readData qi n =>
+    obtain ⟨a, b⟩ := readData_spec (w := s.w) (q := s.get qi) (n := n) rfl
+    exact inv_same h qi (QStep.mk' a fun hq => (b hq).1)
+  | readSquash qi =>
+    obtain ⟨a, b⟩ := readSquash_spec (w := s.w) (q := s.get qi) rfl
+    exact inv_same h qi (QStep.mk' a fun hq => (b hq).1)
+  | reset qi =>
+    obtain ⟨a, b, _⟩ := reset_spec s.w (s.get qi)
+    exact inv_same h qi (QStep.mk' a fun _ => b)
+
+theorem run_inv (s : Sys) (ops : List Op) (h : Inv s)
+    (hops : ∀ (pre : List Op) (op : Op) (post : List Op), ops = pre ++ op :: post → OpOK (run s pre) op) :
+    Inv (run s ops) := by
+  induction ops generalizing s with
+  | nil => exact h
+  | cons op ops ih =>
+    simp only [run]
+    refine ih (step s op).1 (step_inv s op h (hops [] op ops rfl)) ?_
+    intro pre op' post e
+    have := hops (op :: pre) op' post (by rw [e]; rfl)
+    simpa [run] using this
+
+/-- the bytes queue `i` of the system holds -/
+def Sys.abs (s : Sys) (i : Bool) : Bytes := (s.get i).abs s.w
+
+theorem Inv.length_abs {s : Sys} (h : Inv s) (i : Bool) :
+    (s.get i).length = ((s.abs i).length : Int) := by
+  have hq := h.get i
+  simp only [Sys.abs, Cq.abs, Cq.length, absChunks_length hq.valid]
+  exact hq.len
+
+/-! ## the byte-string reference queue -/
+
+/-- the queue an operation works on (transfers: the destination) -/
+def Op.qi : Op → Bool
+  | .appendMem i _ | .appendMemMin i _ | .appendBuffer i _ | .appendBufferOpen i _
+  | .getUseMemory i _ _ | .appendFile i _ _ _ _ | .appendChunkqueue i | .appendMemToTempfile i _
+  | .steal i _ | .stealWithTempfiles i _ | .appendCqRange i _ _ _ | .markWritten i _
+  | .removeFinished i | .removeEmpty i | .compactMem i _ | .compactMemOffset i
+  | .peekData i _ | .readData i _ | .readSquash i | .reset i => i
+
+/-- operations that write temp files -/
+def Op.spills : Op → Bool
+  | .appendMemToTempfile .. | .stealWithTempfiles .. => true
+  | _ => false
+
+/-- reference FIFO semantics: `a` = bytes of the queue operated on, `b` = bytes
+    of the other queue, `files` = file contents; the effect may depend on what
+    the operation reported (`Res`): room offered by get_memory, success, skip -/
+def specStep (files : Nat → Bytes) (a b : Bytes) : Op → Res → Bytes × Bytes
+  | .appendMem _ d, _ => (a ++ d, b)
+  | .appendMemMin _ d, _ => (a ++ d, b)
+  | .appendBuffer _ d, _ => (a ++ d, b)
+  | .appendBufferOpen _ d, _ => (a ++ d, b)
+  | .getUseMemory _ _ d, .avail n => (a ++ d.take n, b)
+  | .appendFile _ fid off len _, _ => (a ++ ((files fid).drop off).take len, b)
+  | .appendChunkqueue _, _ => (a ++ b, [])
+  | .appendMemToTempfile _ d, .rc true => (a ++ d, b)
+  | .steal _ n, _ => (a ++ b.take n, b.drop n)
+  | .stealWithTempfiles _ n, .rc true => (a ++ b.take n, b.drop n)
+  | .appendCqRange _ self off len, .done => (a ++ ((if self then a else b).drop off).take len, b)
+  | .markWritten _ n, .done => (a.drop n, b)
+  | .readData _ n, .read (some _) => (a.drop n, b)
+  | .reset _, _ => ([], b)
+  | _, _ => (a, b)
+
+/-- what a read operation must hand out: the head of the queue, unmodified -/
+def resOK (a : Bytes) : Op → Res → Prop
+  | .peekData _ n, .peeked true d => d = a.take n
+  | .readData _ n, .read (some d) => d = a.take n ∧ d.length = n
+  | _, _ => True
+
+theorem Sys.abs_set_same (s : Sys) (i : Bool) (q : Cq) : (s.set i q).abs i = q.abs s.w := by
+  cases i <;> rfl
+
+theorem Sys.abs_set_other (s : Sys) (i : Bool) (q : Cq) : (s.set i q).abs (!i) = s.abs (!i) := by
+  cases i <;> rfl
+
+theorem abs_frame {s : Sys} {w' : World} (hs : SameFiles s.w w') (i : Bool) :
+    ({ s with w := w' } : Sys).abs i = s.abs i := by
+  cases i <;> exact absChunks_same hs _
+
+/-- a single-queue operation that leaves file contents alone: queue `i`
+    becomes `q'` in world `w'`, the other queue keeps its bytes -/
+theorem refine_single {s : Sys} {i : Bool} {w' : World} {q' : Cq} {a' : Bytes}
+    (hs : SameFiles s.w w') (ha : q'.abs s.w = a') :
+    (({ s with w := w' } : Sys).set i q').abs i = a' ∧
+      (({ s with w := w' } : Sys).set i q').abs (!i) = s.abs (!i) := by
+  refine ⟨?_, ?_⟩
+  · rw [Sys.abs_set_same]
+    simp only [Cq.abs] at ha ⊢
+    rw [absChunks_same hs]; exact ha
+  · rw [Sys.abs_set_other]; exact abs_frame hs _
+
+theorem step_refines (s : Sys) (op : Op) (h : Inv s) (hop : OpOK s op) (hns : op.spills = false) :
+    ((step s op).1.abs op.qi, (step s op).1.abs (!op.qi)) =
+        specStep (fun fid => (s.w.files fid).content) (s.abs op.qi) (s.abs (!op.qi)) op (step s op).2 ∧
+      resOK (s.abs op.qi) op (step s op).2 := by
+  cases op with
+  | appendMem qi d =>
+    have hq := h.get qi
+    obtain ⟨a, _⟩ := appendMem_spec s.w (s.get qi) d
+    have b := appendMem_abs s.w (s.get qi) d hq a
+    simp only [Cq.abs] at b
+    rw [absChunks_same a] at b
+    obtain ⟨x, y⟩ := refine_single (i := qi) a b
+    exact ⟨Prod.ext x y, trivial⟩
+  | appendMemMin qi d =>
+    have hq := h.get qi
+    obtain ⟨a, _⟩ := appendMemMin_spec s.w (s.get qi) d
+    have b := appendMemMin_abs s.w (s.get qi) d hq a
+    simp only [Cq.abs] at b
+    rw [absChunks_same a] at b
+    obtain ⟨x, y⟩ := refine_single (i := qi) a b
+    exact ⟨Prod.ext x y, trivial⟩
+  | appendBuffer qi d =>
+    have hq := h.get qi
+    obtain ⟨a, _⟩ := appendBuffer_spec s.w (s.get qi) d
+    have b := appendBuffer_abs s.w (s.get qi) d hq a
+    simp only [Cq.abs] at b
+    rw [absChunks_same a] at b
+    obtain ⟨x, y⟩ := refine_single (i := qi) a b
+    exact ⟨Prod.ext x y, trivial⟩
+  | appendBufferOpen qi d =>
+    have hq := h.get qi
+    obtain ⟨a, _⟩ := appendBufferOpen_spec s.w (s.get qi) d
+    have b := appendBufferOpen_abs s.w (s.get qi) d hq a
+    simp only [Cq.abs] at b
+    rw [absChunks_same a] at b
+    obtain ⟨x, y⟩ := refine_single (i := qi) a b
+    exact ⟨Prod.ext x y, trivial⟩
+  | getUseMemory qi req d =>
+    have hq := h.get qi
+    have a := (getUseMemory_spec s.w (s.get qi) req d).1
+    have b := getUseMemory_abs s.w (s.get qi) req d hq
+    simp only [Cq.abs] at b
+    rw [absChunks_same a] at b
+    obtain ⟨x, y⟩ := refine_single (i := qi) a b
+    exact ⟨Prod.ext x y, trivial⟩
+  | appendFile qi fid off len fd =>
+    have hq := h.get qi
+    obtain ⟨a, _⟩ := appendFile_spec s.w (s.get qi) fid off len fd
+    have b := appendFile_abs s.w (s.get qi) fid off len fd hq a
+    simp only [Cq.abs] at b
+    rw [absChunks_same a] at b
+    obtain ⟨x, y⟩ := refine_single (i := qi) a b
+    exact ⟨Prod.ext x y, trivial⟩
+  | appendChunkqueue qi =>
+    obtain ⟨a, b⟩ := appendChunkqueue_abs s.w (s.get qi) (s.get (!qi))
+    refine ⟨?_, trivial⟩
+    cases qi <;> exact Prod.ext a b
+  | appendMemToTempfile qi d => cases hns
+  | steal qi n =>
+    obtain ⟨a, b⟩ := steal_spec s.w (s.get qi) (s.get (!qi)) n
+    obtain ⟨_, _, c, d⟩ := b (h.get qi) (h.get (!qi))
+    refine ⟨?_, trivial⟩
+    simp only [Cq.abs] at c d
+    cases qi <;> exact Prod.ext (by simpa [Sys.abs, Cq.abs, step, Sys.get, Sys.set, absChunks_same a] using c)
+      (by simpa [Sys.abs, Cq.abs, step, Sys.get, Sys.set, absChunks_same a] using d)
+  | stealWithTempfiles qi n => cases hns
+  | appendCqRange qi self off len =>
+    simp only [step]
+    split
+    · split
+      · exact ⟨rfl, trivial⟩
+      · obtain ⟨a, b⟩ := rangeLoop_spec s.w (s.get qi) (s.get qi).chunks off len
+        have c := (b (h.get qi) (h.get qi).valid).2
+        obtain ⟨x, y⟩ := refine_single (i := qi) (q' := (appendCqRangeSelf s.w (s.get qi) off len).2) a c
+        exact ⟨Prod.ext x y, trivial⟩
+    · obtain ⟨a, b⟩ := rangeLoop_spec s.w (s.get qi) (s.get (!qi)).chunks off len
+      have c := (b (h.get qi) (h.get (!qi)).valid).2
+      obtain ⟨x, y⟩ := refine_single (i := qi) (q' := (appendCqRange s.w (s.get qi) (s.get (!qi)) off len).2) a c
+      exact ⟨Prod.ext x y, trivial⟩
+  | markWritten qi n =>
+    simp only [step]
+    split
+    · obtain ⟨a, _⟩ := markWritten_spec s.w (s.get qi) n
+      have b := markWritten_abs s.w (s.get qi) n (h.get qi)
+      simp only [Cq.abs] at b
+      rw [absChunks_same a] at b
+      obtain ⟨x, y⟩ := refine_single (i := qi) a b
+      exact ⟨Prod.ext x y, trivial⟩
+    · exact ⟨rfl, trivial⟩
+  | removeFinished qi =>
+    have a := (removeFinished_spec s.w (s.get qi)).1
+    have b := removeFinished_abs s.w (s.get qi) (h.get qi)
+    simp only [Cq.abs] at b
+    rw [absChunks_same a] at b
+    obtain ⟨x, y⟩ := refine_single (i := qi) a b
+    exact ⟨Prod.ext x y, trivial⟩
+  | removeEmpty qi =>
+    have a := (removeEmpty_spec s.w (s.get qi)).1
+    have b := removeEmpty_abs s.w (s.get qi) (h.get qi)
+    simp only [Cq.abs] at b
+    rw [absChunks_same a] at b
+    obtain ⟨x, y⟩ := refine_single (i := qi) a b
+    exact ⟨Prod.ext x y, trivial⟩
+  | compactMem qi clen =>
+    simp only [step]
+    split
+    · have a := (compactMem_spec s.w (s.get qi) clen).1
+      have b := compactMem_abs s.w (s.get qi) clen (h.get qi)
+      simp only [Cq.abs] at b
+      rw [absChunks_same a] at b
+      obtain ⟨x, y⟩ := refine_single (i := qi) a b
+      exact ⟨Prod.ext x y, trivial⟩
+    · exact ⟨rfl, trivial⟩
+  | compactMemOffset qi =>
+    simp only [step]
+    split
+    · exact ⟨rfl, trivial⟩
+    · have b := compactMemOffset_abs s.w (s.get qi)
+      obtain ⟨x, y⟩ := refine_single (i := qi) (SameFiles.refl s.w) b
+      exact ⟨Prod.ext x y, trivial⟩
+  | peekData qi n =>
+    obtain ⟨a, b⟩ := peekData_spec s.w (s.get qi) n
+    obtain ⟨_, c, d⟩ := b (h.get qi)
+    obtain ⟨x, y⟩ := refine_single (i := qi) a c
+    refine ⟨Prod.ext x y, ?_⟩
+    simp only [step]
+    generalize hr : (peekData s.w (s.get qi) n).2.2.2 = ok at d
+    cases ok
+    · simp only [resOK, hr]
+    · simp only [resOK, hr]
+      exact d rfl
+  | readData qi n =>
+    obtain ⟨a, b⟩ := readData_spec (w := s.w) (q := s.get qi) (n := n) rfl
+    obtain ⟨_, c, d⟩ := b (h.get qi)
+    simp only [step]
+    generalize hr : (readData s.w (s.get qi) n).2.2 = r at c d
+    cases r with
+    | none =>
+      obtain ⟨x, y⟩ := refine_single (i := qi) a (d rfl)
+      exact ⟨Prod.ext x y, trivial⟩
+    | some data =>
+      obtain ⟨c1, c2, c3⟩ := c data rfl
+      obtain ⟨x, y⟩ := refine_single (i := qi) a c3
+      exact ⟨Prod.ext x y, c1, c2⟩
+  | readSquash qi =>
+    obtain ⟨a, b⟩ := readSquash_spec (w := s.w) (q := s.get qi) rfl
+    obtain ⟨x, y⟩ := refine_single (i := qi) a (b (h.get qi)).2
+    exact ⟨Prod.ext x y, trivial⟩
+  | reset qi =>
+    obtain ⟨a, _, c, _⟩ := reset_spec s.w (s.get qi)
+    have : (reset s.w (s.get qi)).2.abs s.w = [] := by simp [Cq.abs, c]
+    obtain ⟨x, y⟩ := refine_single (i := qi) a this
+    exact ⟨Prod.ext x y, trivial⟩
+
 end LtVerif.Cq
